@@ -376,7 +376,10 @@ func IsSameWorkloadRefGVKName(a, b *appsv1beta1.ObjectRef) bool {
 	if a == nil || b == nil {
 		return false
 	}
-	return reflect.DeepEqual(a, b)
+	// the controllers resolve a workload by group, kind and name: the version part of apiVersion does not matter
+	ga, _ := schema.ParseGroupVersion(a.APIVersion)
+	gb, _ := schema.ParseGroupVersion(b.APIVersion)
+	return ga.Group == gb.Group && a.Kind == b.Kind && a.Name == b.Name
 }
 
 var _ inject.Client = &RolloutCreateUpdateHandler{}
